@@ -109,7 +109,24 @@ impl Sim {
         let universe: Vec<RollupId> = ids.iter().copied().chain([RollupId::new([0xEE; 32])]).collect();
         let nsub: Vec<u32> = if universe.len() <= 5 { (0..(1u32 << universe.len())).collect() } else { (0..24).map(|_| self.rng.gen_range(0..(1u32 << universe.len()))).collect() };
         for mask in nsub {
-            let want: Vec<RollupId> = universe.iter().enumerate().filter(|(i, _)| mask & (1 << i) != 0).map(|(_, r)| *r).collect();
+            let base: Vec<RollupId> = universe.iter().enumerate().filter(|(i, _)| mask & (1 << i) != 0).map(|(_, r)| *r).collect();
+            // the request lists ids in any order and may repeat one: as listed by the block, reversed, shuffled, with a duplicate
+            let mut orders: Vec<Vec<RollupId>> = vec![base.clone()];
+            if base.len() >= 2 {
+                let mut r = base.clone();
+                r.reverse();
+                orders.push(r);
+                let mut d = base.clone();
+                d.push(base[self.rng.gen_range(0..base.len())]);
+                orders.push(d);
+            }
+            if base.len() >= 3 {
+                use rand::seq::SliceRandom as _;
+                let mut sh = base.clone();
+                sh.shuffle(&mut self.rng);
+                orders.push(sh);
+            }
+            for want in orders {
             let req = raw::GetFilteredSequencerBlockRequest { height, rollup_ids: want.iter().map(|r| r.into_raw()).collect() };
             match server.clone().get_filtered_sequencer_block(tonic::Request::new(req)).await {
                 Ok(r) => {
@@ -129,6 +146,7 @@ impl Sim {
                     }
                 }
                 Err(e) => self.log.ev(json!({"kind": "served_error", "hist": hist, "height": height, "what": "get_filtered_sequencer_block", "err": e.to_string()})),
+            }
             }
         }
 
@@ -204,7 +222,7 @@ impl Sim {
             if let Some(p) = b.rollup_transactions[k].proof.as_mut() {
                 p.leaf_index = p.leaf_index.wrapping_add(1);
             }
-            judge_full("obs_full_block_proof_index_changed", b, &mut verdicts);
+            judge_full("full_block_proof_index_changed", b, &mut verdicts);
             let mut b = full_raw.clone();
             if let Some(p) = b.rollup_transactions[k].proof.as_mut() {
                 p.tree_size = p.tree_size.wrapping_add(2);
@@ -220,7 +238,7 @@ impl Sim {
                 }
                 p.audit_path = ap.into();
             }
-            judge_full("obs_full_block_proof_path_changed", b, &mut verdicts);
+            judge_full("full_block_proof_path_changed", b, &mut verdicts);
             let mut b = full_raw.clone();
             b.rollup_transactions.remove(k);
             judge_full("rollup_dropped", b, &mut verdicts);
